@@ -1,0 +1,21 @@
+//go:build verif
+
+package grpc
+
+import (
+	node "buf.build/gen/go/agglayer/agglayer/grpc/go/agglayer/node/v1/nodev1grpc"
+	aggkitgrpc "github.com/agglayer/aggkit/grpc"
+)
+
+// NewVerifAgglayerGRPCClient builds the real client around caller-supplied service clients.
+func NewVerifAgglayerGRPCClient(cfg *aggkitgrpc.ClientConfig,
+	state node.NodeStateServiceClient,
+	config node.ConfigurationServiceClient,
+	submission node.CertificateSubmissionServiceClient) *AgglayerGRPCClient {
+	return &AgglayerGRPCClient{
+		cfg:                 cfg,
+		networkStateService: state,
+		cfgService:          config,
+		submissionService:   submission,
+	}
+}
